@@ -115,6 +115,7 @@ type SpecDB struct {
 	Ghosts      []*GhostField
 	Transitions []*FieldTransition
 	Axioms      []*Clause
+	AxiomPkg    map[*Clause]string // the package whose contract file states the axiom
 	Lemmas      []*Lemma
 	Files       []string
 	Errors      []string
@@ -429,7 +430,11 @@ func (db *SpecDB) LoadFile(path, pkgPath string) error {
 			}
 			sf.Pkg = pkgPath
 			sf.Text = rest
-			db.SpecFuncs[sf.Name] = sf
+			// a package's own definition wins inside that package; the bare name is what other packages see
+			db.SpecFuncs[pkgPath+"."+sf.Name] = sf
+			if _, dup := db.SpecFuncs[sf.Name]; !dup {
+				db.SpecFuncs[sf.Name] = sf
+			}
 		case "ghost":
 			// ghost field T.name type
 			if len(fields) == 4 && fields[1] == "field" {
@@ -456,6 +461,10 @@ func (db *SpecDB) LoadFile(path, pkgPath string) error {
 		case "axiom":
 			if c := mk("axiom", rest, rc.line); c != nil {
 				db.Axioms = append(db.Axioms, c)
+				if db.AxiomPkg == nil {
+					db.AxiomPkg = map[*Clause]string{}
+				}
+				db.AxiomPkg[c] = pkgPath
 			}
 		case "lemma":
 			// lemma name(params) [induction n] [uses a, b]
